@@ -1,9 +1,9 @@
 CONSTANTS
-  Addrs = {"127.0.0.1", "127.0.0.2", "127.9.9.9", "::1", "10.1.2.3"}
-  Peers = {"127.0.0.1", "127.0.0.2", "127.9.9.9", "::1"}
+  Addrs = {"127.0.0.1", "127.0.0.2", "::1", "10.1.2.3"}
+  Peers = {"127.0.0.1", "127.0.0.2", "::1"}
   DualStackPeers = {"127.0.0.2"}
   Garbage = {"unknown"}
-  Lists = {{}, {"127.0.0.2"}, {"10.1.2.3"}, {"127.9.9.9", "::1"}}
+  Lists = {{}, {"127.0.0.2"}, {"10.1.2.3"}, {"127.0.0.2", "::1"}}
   MaxXff = 2
   Uris = {"u1"}
   Conns = {1}
